@@ -235,6 +235,19 @@ func oracle(r *lib.Run, kind string, c nicCfg, a []string, obs string) {
 		if enc := encodableName(string(lib.UnHex(a[0]))); enc != sent && obs != "panic" {
 			r.Viol("c07."+kind+".refusal", fmt.Sprintf("name encodable=%v but frame sent=%v", enc, sent), replay)
 		}
+	case "arpraw", "arpreply": // a MAC that is not 6 bytes or an address that is not IPv4 cannot be put into an ARP packet
+		ok := len(lib.UnHex(a[0])) == 6 && len(lib.UnHex(a[1])) == 6 && len(lib.UnHex(a[3])) == 6 && len(lib.UnHex(a[2])) == 4 && len(lib.UnHex(a[4])) == 4
+		if ok != sent && obs != "panic" {
+			r.Viol("c07."+kind+".refusal", fmt.Sprintf("arguments encodable=%v but frame sent=%v", ok, sent), replay)
+		}
+	case "na": // the target link-layer address option needs a 6-byte MAC
+		if ok := len(lib.UnHex(a[4])) == 6; ok != sent && obs != "panic" {
+			r.Viol("c07.na.refusal", fmt.Sprintf("target MAC usable=%v but frame sent=%v", ok, sent), replay)
+		}
+	case "discover": // chaddr of an Ethernet client
+		if ok := len(lib.UnHex(a[0])) == 6; ok != sent && obs != "panic" && !strings.HasPrefix(a[len(a)-1], "scn:") {
+			r.Viol("c07.discover.refusal", fmt.Sprintf("chaddr usable=%v but frame sent=%v", ok, sent), replay)
+		}
 	case "nbnsq":
 		if fits := len(lib.UnHex(a[5])) <= 16; fits != sent && obs != "panic" {
 			r.Viol("c07.nbnsq.refusal", fmt.Sprintf("name fits 16 octets=%v but frame sent=%v", fits, sent), replay)
